@@ -22,7 +22,8 @@ RULE = ('Hypothesis settings files: 1-6 INPUT lines mixing normal / uniform / tr
         'Non-trivial = ITERATIONS >= 2 x min(w, ITERATIONS...) i.e. some worker runs at least two iterations, and >= 1 '
         'continuous input; distinct by settings. One case in four carries a fault mix (one input straddling a validity bound, so a '
         'subset of the iterations fails): there rows == number of simulations that returned a result, counted by a harness-side '
-        'wrapper around the client call inherited by the forked workers.')
+        'wrapper around the client call inherited by the forked workers. One case in three is preceded, in the same process, by another '
+        'Monte Carlo request of 1, 2 or 5 iterations on the same paths.')
 ASSUMPTIONS = ['the OS interleaves the workers: schedules are sampled by varying the worker count and load, not enumerated',
                'all iterations valid by construction (distribution supports inside the declared ranges)']
 
@@ -39,14 +40,14 @@ def evaluate(s, rec):
         r = mc.run_mc(s, d)
     finally:
         pass
-    case = {k: s[k] for k in ('program', 'inputs', 'outputs', 'iterations', 'workers', 'fault', 'final_newline')}
+    case = {k: s.get(k) for k in ('program', 'inputs', 'outputs', 'iterations', 'workers', 'fault', 'final_newline', 'prelude')}
     sig = dict(program=s['program'])
 
     def bad(clause, detail, **extra):
         rec.violation(clause, case, detail, **sig, **extra)
 
     cont = [i for i in s['inputs'] if i[1] != 'binomial']
-    labels = [f'program:{s["program"]}', f'workers:{s["workers"]}'] + (['fault_mix'] if s.get('fault') else []) + sorted(set('dist:' + i[1] for i in s['inputs']))
+    labels = [f'program:{s["program"]}', f'workers:{s["workers"]}'] + (['fault_mix'] if s.get('fault') else []) + ([f'earlier_request_in_same_process:{s["prelude"][2]}_iterations'] if s.get('prelude') else []) + sorted(set('dist:' + i[1] for i in s['inputs']))
     if not s.get('final_newline', True):
         labels.append('base_without_final_newline')
     nt = s['iterations'] >= 2 * min(s['workers'], 16) and len(cont) >= 1 or (s['workers'] <= 3 and s['iterations'] >= 2 * s['workers'] and len(cont) >= 1)
@@ -112,6 +113,14 @@ def run_shard(spec, rec):
         s = draw(mc.settings(fault_mix=fault, max_iter=60 if spec['tier'] == 'quick' else 200))
         if fault and s['program'] == 'HIP':
             s['iterations'] = max(s['iterations'], draw(st.integers(30, 80)))
+        s['prelude'] = None
+        if draw(st.integers(0, 2)) == 0:
+            # history: an earlier request in the same process (1, 2 or 5 iterations - a single iteration may be executed without a pool)
+            sampled = {i[0] for i in s['inputs']}
+            cands = [(n, v) for n, v in ([('Reservoir Area', '82.5'), ('Reservoir Thickness', '0.375'), ('Reservoir Porosity', '15.0')] if s['program'] == 'HIP'
+                                          else [('Reservoir Depth', '3.6'), ('Number of Production Wells', '3')]) if n not in sampled]
+            if cands:
+                s['prelude'] = list(draw(st.sampled_from(cands))) + [draw(st.sampled_from([1, 1, 2, 5]))]
         return s
     drive(cases(), fn, spec['n'], spec['seed'])
 
